@@ -543,6 +543,16 @@ def shape_checks(O, inst, sol, entry, x, s, y, z, want):
     return True
 
 
+def resid_ok(val, ft, reported, bound):
+    """residual criterion `val <= ft` for a residual recomputed in floating point.  When the iterates are huge the
+    recomputation and the solver's own evaluation (the reported field) are both dominated by rounding (`bound` =
+    RND * |data| * |iterate|) and can differ by absorption alone; the criterion is then undecidable in floating point and
+    the result is accepted if the solver's own number meets the tolerance and agrees with ours within that bound."""
+    if val <= ft:
+        return True
+    return isinstance(reported, float) and reported <= ft and abs(val - reported) <= bound
+
+
 def rel_ok(gap, pcost, dcost, reltol, slack):
     """documented relative-gap criterion, evaluated with `slack` = rounding uncertainty of the recomputed costs
     (the criterion divides by a cost, which is ill-conditioned when the cost is at rounding level)."""
@@ -589,9 +599,9 @@ def check_optimal(O, inst, sol, entry, cfg, external=False):
         ft = max(ft, 1e-6 if cfg.get('solver') == 'glpk' else 1e-4)
     # a residual evaluated in floating point is only defined up to u*(|G||x|+...): when the iterates are huge
     # (rank-deficient data) the solver's and the oracle's evaluation orders may legitimately differ by that much
-    if judge and not pres <= ft + RND * q['rnd_p']:
+    if judge and not resid_ok(pres, ft, sol.get('primal infeasibility'), RND * q['rnd_p']):
         O.bad('optimal:primal-residual', 'primal residual %.3g > feastol %.3g' % (pres, opts['feastol']), sub)
-    if judge and not dres <= ft + RND * q['rnd_d']:
+    if judge and not resid_ok(dres, ft, sol.get('dual infeasibility'), RND * q['rnd_d']):
         O.bad('optimal:dual-residual', 'dual residual %.3g > feastol %.3g' % (dres, opts['feastol']), sub)
     tiny = 1e-9 * max(1.0, q['ns'], q['nz']) if N else 0.0
     if external:
@@ -669,10 +679,12 @@ def check_pinf(O, inst, sol, entry, cfg):
         O.bad('pinf:normalisation', "h'z + b'y = %.12g, documented -1" % val, sub)
     res = q['hresx'] / q['resx0']
     O.err('pinf:res/feastol', res / opts['feastol'])
-    if not res <= opts['feastol'] * INFL + 1e-10:
+    if not resid_ok(res, opts['feastol'] * INFL + 1e-10, sol.get('residual as primal infeasibility certificate'),
+                    RND * q['rnd_d']):
         O.bad('pinf:certificate-residual', "||G'z + A'y||/max(1,||c||) = %.3g > feastol %.3g" % (res, opts['feastol']), sub)
     O.close('pinf:field:residual', 'residual as primal infeasibility certificate',
-            sol.get('residual as primal infeasibility certificate'), res, max(1.0, q['nz']) * 1e-3, sub, rel=1e-3)
+            sol.get('residual as primal infeasibility certificate'), res, max(1.0, q['nz']) * 1e-3 + 1e-4 * q['rnd_d'], sub,
+            rel=1e-3)
     if N:
         O.close('pinf:field:dual slack', 'dual slack', sol.get('dual slack'), q['tz'], max(1.0, q['nz']), sub)
     if sol.get('dual objective') != 1.0:
@@ -702,11 +714,13 @@ def check_dinf(O, inst, sol, entry, cfg):
         O.bad('dinf:normalisation', "c'x = %.12g, documented -1" % q['cx'], sub)
     res = max(q['hresy'] / q['resy0'], q['hresz'] / q['resz0'])
     O.err('dinf:res/feastol', res / opts['feastol'])
-    if not res <= opts['feastol'] * INFL + 1e-10:
+    if not resid_ok(res, opts['feastol'] * INFL + 1e-10, sol.get('residual as dual infeasibility certificate'),
+                    RND * (q['rnd_p'] + q['ns'])):
         O.bad('dinf:certificate-residual', 'max(||Gx+s||/max(1,||h||), ||Ax||/max(1,||b||)) = %.3g > feastol %.3g'
               % (res, opts['feastol']), sub)
     O.close('dinf:field:residual', 'residual as dual infeasibility certificate',
-            sol.get('residual as dual infeasibility certificate'), res, max(1.0, q['ns']) * 1e-3, sub, rel=1e-3)
+            sol.get('residual as dual infeasibility certificate'), res, max(1.0, q['ns']) * 1e-3 + 1e-4 * q['rnd_p'], sub,
+            rel=1e-3)
     if N:
         O.close('dinf:field:primal slack', 'primal slack', sol.get('primal slack'), q['ts'], max(1.0, q['ns']), sub)
     if sol.get('primal objective') != -1.0:
